@@ -37,6 +37,8 @@ type child struct {
 	leaked  int      // transport goroutines known to have been left behind in this incarnation
 	leaks   int      // number of confirmed leaks (after two the long waits are dropped)
 	env     []string // extra environment (GOMAXPROCS=1 for the one-processor gate scenarios)
+	grace   time.Duration // how long to wait for the process to die after a stream (0 = 150 ms)
+	gorace  string        // further GORACE options
 }
 
 type lockedBuf struct {
@@ -88,7 +90,7 @@ func (c *child) start() {
 	c.starts++
 	c.leaked = 0
 	cmd := exec.Command(c.bin)
-	cmd.Env = append(append(os.Environ(), "GORACE=halt_on_error=0 log_path="+filepath.Join(c.dir, "race")), c.env...)
+	cmd.Env = append(append(os.Environ(), "GORACE=halt_on_error=0 log_path="+filepath.Join(c.dir, "race")+" "+c.gorace), c.env...)
 	stdin, _ := cmd.StdinPipe()
 	stdout, _ := cmd.StdoutPipe()
 	c.stderr = &lockedBuf{}
@@ -244,6 +246,18 @@ type Scenario struct {
 	Gated      bool    `json:"gated"`         // delays of -1 are released by the driver once the previous payload arrived
 	Hold       string  `json:"hold"`          // Mechanism A: which call(s) the gate writer holds open ("" = plain endpoint)
 	OneP       bool    `json:"one_processor"` // run in a server child with GOMAXPROCS=1
+	// histories (phase H): FailAt > 0 = the FailAt-th payload of this stream cannot be serialized
+	// (FailMode raw: Response.Data is not JSON | ext: an extension value's MarshalJSON errors);
+	// Hist/Pos: the Pos-th request served by the same server process (handler) in history Hist
+	FailAt   int    `json:"fail_at"`
+	FailMode string `json:"fail_mode,omitempty"`
+	Hist     string `json:"hist,omitempty"`
+	Pos      int    `json:"pos"`
+	Server   string `json:"server,omitempty"` // which kind of child served it (race | plain-1p)
+	// set only in the replay object of a violation: all requests of the history, in order
+	HistSteps []*Scenario `json:"history_steps,omitempty"`
+	// phase G (generated code): the operation, its plan and gate script, and what was expected
+	Gen *genCase `json:"gen,omitempty"`
 
 	Status    int      `json:"status"`
 	CT        string   `json:"content_type"`
@@ -282,8 +296,10 @@ func (c *child) run(s *Scenario) {
 		DelaysNs   []int64 `json:"delays_ns"`
 		EndDelayNs int64   `json:"end_delay_ns"`
 		Hold       string  `json:"hold"`
+		FailAt     int     `json:"fail_at"`
+		FailMode   string  `json:"fail_mode"`
 	}
-	sj, _ := json.Marshal(wire{s.ID, s.N, s.Sizes, s.DelaysNs, s.EndDelayNs, s.Hold})
+	sj, _ := json.Marshal(wire{s.ID, s.N, s.Sizes, s.DelaysNs, s.EndDelayNs, s.Hold, s.FailAt, s.FailMode})
 	ep := "g"
 	if s.Hold != "" {
 		ep = "h"
@@ -368,7 +384,11 @@ func (c *child) run(s *Scenario) {
 	s.RawHead = excerpt(raw, 600)
 
 	// did the server survive?
-	if d, se := c.died(150 * time.Millisecond); d {
+	grace := 150 * time.Millisecond
+	if c.grace > 0 {
+		grace = c.grace
+	}
+	if d, se := c.died(grace); d {
 		s.Crashed, s.Stderr = true, se
 	}
 
@@ -419,68 +439,7 @@ func (c *child) run(s *Scenario) {
 		}
 	}
 
-	// tokenise
-	status, hdr, body, ok := splitHead(raw)
-	s.Status, s.CT = status, hdr["content-type"]
-	cut := s.CutAt >= 0
-	switch {
-	case !ok:
-		if cut {
-			s.EOF = "cut"
-		} else {
-			s.EOF = "broken"
-			s.Detail = "no complete response head"
-		}
-	case hdr["transfer-encoding"] != "chunked":
-		s.EOF = "broken"
-		s.Detail = "response is not chunked: " + fmt.Sprint(hdr)
-		if cut {
-			s.EOF = "cut"
-		}
-	default:
-		data, _, state, detail := dechunk(body)
-		s.Detail = detail
-		switch {
-		case cut && state != "broken":
-			s.EOF = "cut"
-		case state == "clean":
-			s.EOF = "clean"
-		default:
-			s.EOF = "broken"
-			if state == "short" {
-				s.Detail = "connection ended before the terminating chunk"
-			}
-		}
-		if s.Kind == "sse" {
-			s.Toks = tokSSE(data, s.Sizes, cut || state != "clean", s.ErrMode)
-		} else {
-			s.Toks = tokMM(data, mmBoundary, s.N, s.Sizes, cut || state != "clean")
-			if s.EOF == "clean" {
-				s.mimeCheck(data)
-			}
-		}
-		if s.EOF == "broken" && state == "broken" {
-			// whatever followed the corruption is unusable
-			if n := len(s.Toks); n == 0 || s.Toks[n-1].K != "bad" {
-				t := tok("bad")
-				t.Raw = detail
-				s.Toks = append(s.Toks, t)
-			}
-		}
-	}
-	if s.EOF == "broken" || len(s.Direct) > 0 {
-		// keep the bytes of anything irregular
-		_ = os.WriteFile(filepath.Join(c.dir, "raw-"+s.ID+".bin"), raw, 0o644)
-	}
-	if ok && !cut {
-		want := "text/event-stream"
-		if s.Kind == "mm" {
-			want = `multipart/mixed;boundary="` + mmBoundary + `";deferSpec=20220824`
-		}
-		if s.Status != 200 || s.CT != want {
-			s.direct(s.Kind+":status-or-content-type", fmt.Sprintf("status %d Content-Type %q (want 200 %q)", s.Status, s.CT, want))
-		}
-	}
+	s.tokenise(raw, c.dir)
 	s.WallMs = float64(time.Since(t0).Microseconds()) / 1000
 }
 
@@ -534,5 +493,78 @@ func (s *Scenario) mimeCheck(data []byte) {
 		s.direct("mm:mime-multipart-rejects-body", problem)
 	} else if !closed || parts != mine {
 		s.direct("mm:mime-multipart-disagrees", fmt.Sprintf("mime/multipart sees %d parts (closed=%v), the strict tokeniser %d", parts, closed, mine))
+	}
+}
+
+// tokenise turns the raw bytes read from the connection into the stream's
+// tokens and end marker (anything irregular is kept under dir).
+func (s *Scenario) tokenise(raw []byte, dir string) {
+	status, hdr, body, ok := splitHead(raw)
+	s.Status, s.CT = status, hdr["content-type"]
+	cut := s.CutAt >= 0
+	switch {
+	case !ok:
+		if cut {
+			s.EOF = "cut"
+		} else {
+			s.EOF = "broken"
+			s.Detail = "no complete response head"
+		}
+	case hdr["transfer-encoding"] != "chunked":
+		s.EOF = "broken"
+		s.Detail = "response is not chunked: " + fmt.Sprint(hdr)
+		if cut {
+			s.EOF = "cut"
+		}
+	default:
+		data, _, state, detail := dechunk(body)
+		s.Detail = detail
+		switch {
+		case cut && state != "broken":
+			s.EOF = "cut"
+		case state == "clean":
+			s.EOF = "clean"
+		default:
+			s.EOF = "broken"
+			if state == "short" {
+				s.Detail = "connection ended before the terminating chunk"
+			}
+		}
+		switch {
+		case s.Gen != nil && s.Kind == "sse":
+			s.Toks = tokSSEWith(data, cut || state != "clean", s.Gen.matchSSE)
+		case s.Gen != nil:
+			s.Toks = tokMMWith(data, mmBoundary, cut || state != "clean", s.Gen.matchMM)
+		case s.Kind == "sse":
+			s.Toks = tokSSE(data, s.Sizes, cut || state != "clean", s.ErrMode)
+		default:
+			s.Toks = tokMM(data, mmBoundary, s.N, s.Sizes, cut || state != "clean")
+		}
+		// (a stream whose payload cannot be encoded is, as the code serves it today, not a
+		// complete multipart body: Stream.tla says what it is, mime/multipart is not asked)
+		if s.Kind == "mm" && s.EOF == "clean" && s.FailAt == 0 {
+			s.mimeCheck(data)
+		}
+		if s.EOF == "broken" && state == "broken" {
+			// whatever followed the corruption is unusable
+			if n := len(s.Toks); n == 0 || s.Toks[n-1].K != "bad" {
+				t := tok("bad")
+				t.Raw = detail
+				s.Toks = append(s.Toks, t)
+			}
+		}
+	}
+	if s.EOF == "broken" || len(s.Direct) > 0 {
+		// keep the bytes of anything irregular
+		_ = os.WriteFile(filepath.Join(dir, "raw-"+s.ID+".bin"), raw, 0o644)
+	}
+	if ok && !cut {
+		want := "text/event-stream"
+		if s.Kind == "mm" {
+			want = `multipart/mixed;boundary="` + mmBoundary + `";deferSpec=20220824`
+		}
+		if s.Status != 200 || s.CT != want {
+			s.direct(s.Kind+":status-or-content-type", fmt.Sprintf("status %d Content-Type %q (want 200 %q)", s.Status, s.CT, want))
+		}
 	}
 }
